@@ -167,11 +167,13 @@ def isParam : Val → Bool
 def kindIntOrNone (k : Kind) : Bool := k == .int || k == .none
 def kindRegOrNone (k : Kind) : Bool := k == .register || k == .none
 
-/-- `block._validate_count`: a loop or iteration count must not be a float, nor a constant or parameter of kind FLOAT -/
+/-- `block._validate_count`: a loop or iteration count must be a Python int, or a constant or parameter of kind INT
+or NONE -/
 def validateCount (v : Val) : M Unit :=
   match v with
-  | .flt _ => throw (.jaqal "count-not-an-integer")
-  | _ => if isAV v && avKind v == .float then throw (.jaqal "count-not-an-integer") else pure ()
+  | .int _ => pure ()
+  | _ =>
+    if isAV v && kindIntOrNone (avKind v) then pure () else throw (.jaqal "count-not-an-integer")
 
 /-! ### `Register.__init__`, `NamedQubit.__init__` -/
 
@@ -197,54 +199,66 @@ def regSize (src : Val) : M Val :=
   | .error (.other "ValueError") => .error (.jaqal "zero-step")
   | r => r
 
+/-- the branch of `Register.__init__` for a slice none of whose parts is an annotated value -/
+def sliceKnownCheck (src start stop step : Val) : M Unit := do
+  if pyEq0 step then throw (.jaqal "zero-step")
+  if ← pyLt start (.int 0) then throw (.jaqal "index-out-of-range")
+  let size ← regSize src            -- `alias_from.size`
+  if size == .none || isAV size then
+    pure ()
+  else
+    if ← pyLt size stop then throw (.jaqal "index-out-of-range")      -- `stop > alias_from.size`
+    let a ← pyRangeArg (Resolve.startOr0 start)
+    let b ← pyRangeArg stop
+    let s ← pyRangeArg (Resolve.stepOr1 step)
+    let len ← Resolve.rangeLen a b s
+    if len > 0 then
+      -- `indices[0] >= alias_from.size or indices[-1] < 0`
+      if (← pyLe size (.int a)) || a + (len - 1) * s < 0 then throw (.jaqal "index-out-of-range")
+
 /-- the checks of `Register(name, alias_from=src, alias_slice=slice(start, stop, step))`; none of the bounds is
 `None` (the builder has filled in the defaults). `src` is a register or a parameter. -/
 def sliceCheck (src start stop step : Val) : M Unit := do
+  -- every bound must be a Python int or an annotated value
+  if !((isIntLit start || isAV start) && (isIntLit stop || isAV stop) && (isIntLit step || isAV step)) then
+    throw (.jaqal "slice-bound-not-an-integer")
   if isAV start || isAV stop || isAV step || isAV src then
     if isAV start && !kindIntOrNone (avKind start) then throw (.jaqal "slice-start-kind")
     if isAV stop && !kindIntOrNone (avKind stop) then throw (.jaqal "slice-stop-kind")
     if isAV step && !kindIntOrNone (avKind step) then throw (.jaqal "slice-step-kind")
     if isAV src && !kindRegOrNone (avKind src) then throw (.jaqal "slice-source-kind")
-  else
-    -- every bound that is not `None` must be a Python int
-    if !(isIntLit start && isIntLit stop && isIntLit step) then throw (.jaqal "slice-bound-not-an-integer")
-    if pyEq0 step then throw (.jaqal "zero-step")
-    if ← pyLt start (.int 0) then throw (.jaqal "index-out-of-range")
-    let size ← regSize src            -- `alias_from.size`
-    if size == .none || isAV size then
-      pure ()
-    else
-      if ← pyLt size stop then throw (.jaqal "index-out-of-range")      -- `stop > alias_from.size`
-      let a ← pyRangeArg (Resolve.startOr0 start)
-      let b ← pyRangeArg stop
-      let s ← pyRangeArg (Resolve.stepOr1 step)
-      let len ← Resolve.rangeLen a b s
-      if len > 0 then
-        -- `indices[0] >= alias_from.size or indices[-1] < 0`
-        if (← pyLe size (.int a)) || a + (len - 1) * s < 0 then throw (.jaqal "index-out-of-range")
+  else sliceKnownCheck src start stop step
 
 def mkSlice (name : String) (src start stop step : Val) : M Val := do
   sliceCheck src start stop step
   pure (.regS name src start stop step)
 
+/-- the range check of `NamedQubit.__init__` against `int(alias_from.size)`;
+`try: from_size = int(alias_from.size) except JaqalError: return` -/
+def indexRangeCheck (src idx : Val) : M Unit :=
+  match (regSize src >>= pyIntOfSize) with
+  | .error (.jaqal _) => pure ()
+  | .error e => throw e
+  | .ok k => do
+    if (← pyLt idx (.int 0)) || (← pyLe (.int k) idx) then throw (.jaqal "index-out-of-range")
+
+/-- `not isinstance(alias_index, (int, float)) or alias_index != int(alias_index)` -/
+def indexIntegralCheck : Val → M Unit
+  | .int _ => pure ()
+  | .flt d => if !d.isIntegral then throw (.jaqal "index-not-integer") else pure ()
+  | _ => throw (.jaqal "index-not-integer")
+
 /-- the checks of `NamedQubit(name, src, idx)` -/
 def qubitCheck (src idx : Val) : M Unit := do
   if idx == .none || src == .none then throw (.jaqal "invalid-map")
   if isAV idx || isAV src then
+    -- `not isinstance(alias_index, (int, float, AnnotatedValue))`
+    if !(idx.isNum || isAV idx) then throw (.jaqal "index-not-integer")
     if isAV idx && !kindIntOrNone (avKind idx) then throw (.jaqal "index-kind")
     if isAV src && !kindRegOrNone (avKind src) then throw (.jaqal "source-kind")
-  else
-    -- `not isinstance(alias_index, (int, float)) or alias_index != int(alias_index)`
-    match idx with
-    | .int _ => pure ()
-    | .flt d => if !d.isIntegral then throw (.jaqal "index-not-integer")
-    | _ => throw (.jaqal "index-not-integer")      -- `not isinstance(alias_index, (int, float))`
-    -- `try: from_size = int(alias_from.size) except JaqalError: return`
-    match (regSize src >>= pyIntOfSize) with
-    | .error (.jaqal _) => pure ()
-    | .error e => throw e
-    | .ok k =>
-      if (← pyLt idx (.int 0)) || (← pyLe (.int k) idx) then throw (.jaqal "index-out-of-range")
+  else do
+    indexIntegralCheck idx
+    indexRangeCheck src idx
 
 /-- `NamedQubit(name, src, idx)`. -/
 def mkQubit (name : String) (src idx : Val) : M Val := do
@@ -302,8 +316,9 @@ def dictSet {β : Type} (k : String) (v : β) : List (String × β) → List (St
 
 /-- how the memo table is keyed: as the code does today (`new`); as it did before numbers were typed in the key
 (`oldNum`: numbers compared with Python `==`, so `1` and `1.0` collide); as it did before that and before the key
-covered names inside array items (`old`); or not at all (`off`). `noReset` is today's key without the reset of the
-table that `build_circuit` now performs whenever a `usepulses` statement loads gates. -/
+covered names inside array items (`old`); or not at all (`off`). `noReset` is today's key with `usepulses`
+handled as it was before two repairs: no reset of the table when a `usepulses` statement loads gates, and no rejection
+of a `usepulses` statement that comes after the first gate or macro. -/
 inductive KeyMode where
   | new | noReset | oldNum | old | off
   deriving DecidableEq, Repr, Inhabited
@@ -793,6 +808,10 @@ def stepTail (cfg : Config) (mode : KeyMode) (inject : Option (List (String × G
   | .case => throw (unmodelled "case-statement-at-circuit-level")
   | .usepulses name =>
     if cfg.autoload then
+      -- statements already built are bound to the gate definitions known so far, which this import could replace
+      if mode != .noReset && (!acc.stmts.isEmpty || !acc.macros.isEmpty) then
+        throw (.jaqal "pulses-after-first-gate-or-macro")
+      else
       match cfg.imports name with
       | Option.none => throw .importErr
       | some gs =>
